@@ -400,6 +400,11 @@ def rewrite_body(text, rules_log, intended_panics=False, keep_asserts=False):
                     i = k + 1
                     continue
                 if name == "cfg":
+                    atxt = norm("".join(x.text for x in toks[i:k + 1])).replace(" ", "")
+                    if atxt in ("#[cfg(unix)]", '#[cfg(not(target_os="windows"))]', "#[cfg(not(windows))]"):
+                        rules_log.append(("R2", atxt + " dropped (platform: Linux)"))
+                        i = k + 1
+                        continue
                     raise ExtractError("cfg attribute inside extracted body: " + "".join(x.text for x in toks[i:k + 1]))
         # macro calls
         if t.kind == "ident":
@@ -781,11 +786,13 @@ R9_RULES = [
     ("R9e", "$$e . iter_mut ( ) . for_each ( | $x | {",
             "let mut r9_n: usize = 0; while r9_n < $$e.len() { let $x = &mut $$e[r9_n]; r9_n = r9_n + 1; {", "} ) ;", "} }"),
     ("R9g", "$$e . iter ( ) . any ( | $x | $$c )",
-            "{ let mut r9_any = false; let mut r9_k: usize = 0; while r9_k < $$e.len() && !r9_any { let $x = &$$e[r9_k]; if $$c { r9_any = true; } r9_k = r9_k + 1; } r9_any }"),
+            "({ let mut r9_any = false; let mut r9_k: usize = 0; while r9_k < $$e.len() && !r9_any { let $x = &$$e[r9_k]; if $$c { r9_any = true; } r9_k = r9_k + 1; } r9_any })"),
     ("R9i", "$$e . as_mut ( ) . and_then ( | $x | $x . pop_front ( ) )",
             "(match $$e.as_mut() { Some($x) => $x.pop_front(), None => None })"),
     ("R9h", "for $x in $$e . values ( ) {",
             "let mut r9_n: usize = 0; let r9_len: usize = $$e.len(); while r9_n < r9_len { let $x = $$e.nth_value_mut(r9_n); r9_n = r9_n + 1;"),
+    ("R9j", "for $x in $e {",
+            "let mut r9_q = $e; while r9_q.len() > 0 { let $x = vec_take_first(&mut r9_q);"),
     ("R9f", "for $x in $$e . iter ( ) {",
             "let mut r9_n: usize = 0; while r9_n < $$e.len() { let $x = $$e.get(r9_n); r9_n = r9_n + 1;"),
 ]
